@@ -32,14 +32,21 @@ def run(prop, tier):
                 jobs.append((xf, ["big", a, b, r, m, lg, cl], "big %d b=%d r=%d mode=%d 2^%d chunk 2^%d" % (a, b, r, m, lg, cl)))
     jobs.sort(key=lambda j: 0 if j[1][0] == "big" else 1)
     common.parallel(lambda j: common.run_harness(j[0], j[1], acc, "hash_enum " + j[2], timeout=7000, crash_prop=prop), jobs)
+    # hash objects are independent: two objects of the same algorithm used by two threads at once, under the controlled scheduler + happens-before monitor
+    from checks import mcsched
+    sacc = mcsched.run_jobs(prop, tier, [dict(src="harness/sched_c11.c", args=["pair", "-p", 1 if tier == "quick" else 2, "--", a]) for a in range(NALG)])
+    acc.viols += sacc.viols; acc.jobs += sacc.jobs; acc.samples += sacc.samples[:2]; acc.incomplete += sacc.incomplete; acc.engine_errors += sacc.engine_errors
+    for k, v in sacc.stats.items():
+        acc.add_stat("sched_" + k, v)
     s = acc.stats
     cov = dict(evaluations=s.get("evaluations", 0), distinct_nontrivial=s.get("nontrivial", 0),
                rule="per algorithm (11): one-shot digests for every length 0..5B+1; every split of every length 0..2B+1 into two updates (covers every (bytes buffered, chunk length) pair incl. exact fills, "
                     "multi-block chunks, padding boundaries); every three-way split for lengths B-1, B, B+1, 2B; every call sequence of depth <= %d over {update(0|1|B-1|B), reset, get_string, get_digest exact, "
                     "get_digest one byte short}; thorough adds single updates of 2^29, 2^31 and 2^32 (+r) bytes arriving on b buffered bytes, a stream crossing 2^32 in 1 MiB chunks and three 1 GiB updates, over a tiled virtual buffer. "
-                    "Reference: GNU nettle (independent implementation of MD5, SHA-1, SHA-2, SHA-3, GOST R 34.11-94 CryptoPro). distinct non-trivial = distinct (buffered, chunk length) pairs + big inputs"
+                    "two objects of the same algorithm hashing in two threads at once (all interleavings with <= 1 (2) preemptions at the library's synchronisation points, every access watched by the "
+                    "happens-before monitor). Reference: GNU nettle (independent implementation of MD5, SHA-1, SHA-2, SHA-3, GOST R 34.11-94 CryptoPro). distinct non-trivial = distinct (buffered, chunk length) pairs + big inputs"
                     % (6 if tier == "quick" else 7),
-               exhaustive=True, split_digests=s.get("split_digests", 0), call_sequences=s.get("call_sequences", 0), big_inputs=s.get("big_inputs", 0))
+               exhaustive=True, concurrent_executions=s.get("sched_executions", 0), split_digests=s.get("split_digests", 0), call_sequences=s.get("call_sequences", 0), big_inputs=s.get("big_inputs", 0))
     assumptions = ["message content is position-coded, not enumerated: a defect that depends on particular byte values inside a compression function is out of reach (see DESIGN.md section 6)",
                    "GNU nettle 3.x is the reference implementation of the standards (cross-checked with the published GOST CryptoPro vector for 'a')"]
     return common.finish(prop, tier, "exploration", acc, cov, assumptions, t0)
@@ -48,5 +55,8 @@ def run(prop, tier):
 def replay(prop, path):
     r = json.load(open(path))
     args = r["replay"].split()
+    if args[0].startswith("sched_"):
+        from checks import mcsched
+        return mcsched.replay(prop, path)
     e = dict(os.environ); e.update(common.ASAN_ENV)
     return subprocess.call([exe("asan")] + args[1:], env=e)
